@@ -17,6 +17,7 @@ type Gen struct {
 	// per history knowledge of the generator (only used to make mostly-valid requests)
 	repos    []string
 	blobsIn  map[string][]string // repo -> content tokens pushed
+	bodyToks map[string][]string // body name -> kind and tokens of its DEF line
 	manIn    map[string][]string // repo -> manifest body names acknowledged
 	manMT    map[string]string   // body name -> media type token it was stored under
 	manLen   map[string]int
@@ -117,6 +118,10 @@ func (g *Gen) defBody(kind string, toks []string) string {
 	}
 	g.emit(fmt.Sprintf("DEF %s %s %s len=%d", name, kind, strings.Join(toks, " "), len(raw)))
 	g.manLen[name] = len(raw)
+	if g.bodyToks == nil {
+		g.bodyToks = map[string][]string{}
+	}
+	g.bodyToks[name] = append([]string{kind}, toks...)
 	return name
 }
 
@@ -291,24 +296,59 @@ func (g *Gen) nestedIndex(repo string) {
 	}
 	g.manIn[repo] = append(g.manIn[repo], leaf)
 	g.manMT[leaf] = "ocim"
-	inner := g.defBody("index", []string{"mt=ocii", fmt.Sprintf("children=ocim/sha256:%s/%d", leaf, g.manLen[leaf]), "subj=", "at=", "ann=k=in" + strconv.Itoa(g.bodyN)})
+	// both index media types, in every combination (a Docker manifest list is an index like the OCI one)
+	imt, omt := g.pick([]string{"ocii", "ocii", "dockl"}), g.pick([]string{"ocii", "ocii", "dockl"})
+	inner := g.defBody("index", []string{"mt=" + imt, fmt.Sprintf("children=ocim/sha256:%s/%d", leaf, g.manLen[leaf]), "subj=", "at=", "ann=k=in" + strconv.Itoa(g.bodyN)})
 	ref := g.pick([]string{"sha256:" + inner, "sha256:" + inner, "t2"})
-	if out := g.emit(fmt.Sprintf("MPUT %s %s ct=ocii body=%s", repo, ref, inner)); !strings.HasPrefix(out, "201 ") {
+	if out := g.emit(fmt.Sprintf("MPUT %s %s ct=%s body=%s", repo, ref, imt, inner)); !strings.HasPrefix(out, "201 ") {
 		return
 	}
 	g.manIn[repo] = append(g.manIn[repo], inner)
-	g.manMT[inner] = "ocii"
-	outer := g.defBody("index", []string{"mt=ocii", fmt.Sprintf("children=ocii/sha256:%s/%d", inner, g.manLen[inner]), "subj=", "at=", "ann=k=out" + strconv.Itoa(g.bodyN)})
-	if out := g.emit(fmt.Sprintf("MPUT %s %s ct=ocii body=%s", repo, g.pick([]string{"t1", "t3"}), outer)); strings.HasPrefix(out, "201 ") {
+	g.manMT[inner] = imt
+	outer := g.defBody("index", []string{"mt=" + omt, fmt.Sprintf("children=%s/sha256:%s/%d", imt, inner, g.manLen[inner]), "subj=", "at=", "ann=k=out" + strconv.Itoa(g.bodyN)})
+	if out := g.emit(fmt.Sprintf("MPUT %s %s ct=%s body=%s", repo, g.pick([]string{"t1", "t3"}), omt, outer)); strings.HasPrefix(out, "201 ") {
 		g.manIn[repo] = append(g.manIn[repo], outer)
-		g.manMT[outer] = "ocii"
+		g.manMT[outer] = omt
 	}
+}
+
+// repushIncomplete: a manifest that was acknowledged loses one of the blobs it refers to (blob delete) and is pushed
+// again under another reference: it is no longer complete and must be refused like a first push (C04)
+func (g *Gen) repushIncomplete(repo string) {
+	if len(g.manIn[repo]) == 0 {
+		return
+	}
+	name := g.pick(g.manIn[repo])
+	toks := g.bodyToks[name]
+	if len(toks) == 0 {
+		return
+	}
+	refs := []string{}
+	if v := kv(toks, "cfg"); v != "" {
+		refs = append(refs, v)
+	}
+	refs = append(refs, csv(kv(toks, "layers"))...)
+	for _, c := range strings.Split(kv(toks, "children"), ";") {
+		if p := strings.SplitN(c, "/", 3); len(p) == 3 {
+			refs = append(refs, p[1])
+		}
+	}
+	if len(refs) == 0 {
+		return
+	}
+	g.emit("BDEL " + repo + " " + g.pick(refs))
+	mt := g.manMT[name]
+	g.emit(fmt.Sprintf("MPUT %s %s ct=%s body=%s", repo, g.pick([]string{"t2", "t3", "sha256:" + name}), mt, name))
 }
 
 func (g *Gen) step() {
 	repo := g.repo()
 	if g.r.Intn(25) == 0 {
 		g.nestedIndex(repo)
+		return
+	}
+	if g.r.Intn(30) == 0 {
+		g.repushIncomplete(repo)
 		return
 	}
 	switch g.r.Intn(16) {
